@@ -58,7 +58,7 @@ def replay(args, outdir):
             out = []
             for ci in order_:
                 chrom = ['chr1', 'chr2', 'chr3'][ci]
-                for pos, base in ((10, 'C'), (10, 'T'), (20, 'G'), (30, 'G'), (10, 'A')):
+                for pos, base in H.QUERIES:
                     r = ar.getAllelesAt(chrom, pos, base)
                     out.append(None if r is None else sorted(r))
             return out
